@@ -26,6 +26,12 @@ CLAIMS = {
  "C10": ("Theorems: draws_prefix and same_prefix_same_result (the result of a run depends only on the consumed prefix of the draw stream), run_append; structural determinism of the model (randomness enters only at binomial/categorical nodes). The runtime part is observed: identically seeded runs of generated circuits are bit-identical and draw the same number of generator words twice in one process with the ambient generator consumed in between, on 16 threads, and in a separate process.",
          "PARTIAL: absence of ambient nondeterminism in the Rust code (thread_rng, randomly seeded hashers, process state) is observed by the harness, not proved; hash-map iteration order is an oracle in the model.",
          "DESIGN.md §5 C10", TECH),
+ "C05": ("Theorems: constants_documented_unitary (every constant gate incl. the named controlled constants equals its documented matrix and is unitary, kernel-checked over the exact field Q(zeta8) = the whole quantifier for parameterless gates), param_prims_documented and param_prims_unitary (RX RY RZ U1 U2 U3 equal the documented closed forms and are unitary for ALL parameter values, in any commutative *-ring with an abstract trigonometric context), u2_is_u3_at_half_pi, u3_decomposition, controlled_is_direct_sum, kron_is_kronecker, unitary_closed / unitary_of_term (unitarity preserved by C, Kron, products, powers), param_live (a reference parameter contributes the store's current value). Composite = ordered product of embedded sub-gates and loop = power follow from the C04 route theorems. Correspondence: matrix() of all 44 registry gates and of random nested combinators at generated parameters vs the model (1e-12), vs the documented unitary (1e-9), unitarity, and reference-parameter liveness.",
+         "IEEE rounding/libm outside the model; exp(-i theta P/2) = cos(theta/2) - i sin(theta/2) P is textbook and not re-proved; composite/loop statements take the C04 corollary.",
+         "DESIGN.md §5 C05", TECH),
+ "C14": ("Theorems for all texts: parse_total / parse_consumes / parse_never_panics; parse_error_cannot_start, parse_error_unclosed, parse_error_dangling, parse_error_signed_exponent (the specific ParseError); parse_cst_partial / parse_render_partial — the fully general scannerless round trip: for every AST of the documented grammar, every layout with arbitrary (Unicode) white space and redundant parentheses and every remainder that cannot continue the expression, parse returns exactly that tree and that remainder, hence the conventional value under every interpretation of the float operations; literal_bits_agree. The regex patterns are regenerated from the source on every run (patterns_as_modelled). Correspondence: grammar-generated and malformed strings, AST/remainder exact, value bits exact (2 ulp for libm functions).",
+         "PARTIAL: integer literals >= 2^64 are rejected by the code (known finding, pinned by a test); the regex crate, Rust's f64 parsing and libm are modelled and checked by runs, not verified; a signed exponent without parentheses (2^-1) is treated as outside the documented grammar.",
+         "DESIGN.md §5 C14", TECH),
 }
 NOT_YET = "check under construction in this round (not yet claimed)"
 
